@@ -471,6 +471,10 @@ impl SymbolTable {
     pub fn verif_num_symbols(&self) -> usize {
         self.all_symbols.len()
     }
+
+    pub fn verif_current_scope_type(&self) -> ScopeType {
+        self.current_scope_type()
+    }
 }
 
 #[cfg(oq3_verif)]
